@@ -364,8 +364,17 @@ func (in *c07inst) c07step(c c07call) (viol []c07viol) {
 		}
 	}
 	for k := range before {
-		if _, ok := after[k]; !ok && c.Kind != c07Exit {
-			bad("kind=unrelated-key-changed", "key %v vanished", k)
+		if _, ok := after[k]; !ok {
+			// a whole entry may only vanish through the cap on never-expiring duties, and only if everything in it was the
+			// storing share's own (other shares' accepted partials are not the storing share's to evict)
+			if c.Kind == c07Exit && c07onlyEvicted(before[k], nil, set) {
+				if in.evicted == nil {
+					in.evicted = map[key]bool{}
+				}
+				in.evicted[k] = true
+				continue
+			}
+			bad("kind=unrelated-key-changed", "key %v vanished although it held accepted partials of shares that were not storing", k)
 		}
 	}
 	// Triggers: exactly the validators whose accepted partials reached threshold during this call.
